@@ -347,6 +347,7 @@ class Z3Alg(Alg):
 
   def __init__(self, abstract_minmax=False):
     self.assume = []        # facts introduced by the encoding (sqrt, trig pairs, cut postconditions)
+    self.assume_raw = []    # redundant copies of sqrt facts over unsimplified radicands
     self.side = []          # (kind, condition) definedness side conditions
     self.n = 0
     self.trig = {}
@@ -410,11 +411,13 @@ class Z3Alg(Alg):
     a = _zr(a)
     if z3.is_int(a):
       a = z3.ToReal(a)
+    a0 = a
     a = z3.simplify(a)
     k = a.get_id()
     if k not in self.sqrt_cache:
       s = self.fresh('sqrt')
       self.assume += [s >= 0, s * s == a]
+      self.assume_raw += [s * s == a0]     # same fact over the unsimplified radicand (shares subterms with the program; used by the abstraction pre-pass)
       self.side.append(('sqrt-nonneg', a >= 0))
       self.sqrt_cache[k] = (a, s)
     return self.sqrt_cache[k][1]
